@@ -172,7 +172,11 @@ theorem rel_entity {c : CW} {s : WS} (hi : Inv c) (hr : Rel c s) {w' : WM} {e : 
       intro o ho
       show o < (s.ents.set k (some x)).length
       rw [List.length_set]; exact hr.markedLt o ho
-    markedNodup := hr.markedNodup }
+    markedNodup := hr.markedNodup
+    markedOld := by
+      intro o ho h hh
+      show h ∉ createHandles w'.buffers
+      rw [hbuf]; exact hr.markedOld o ho h hh }
   · intro o h ho
     have ho' : c.issued[o]? = some h := ho
     rw [setEnt_alive]
